@@ -416,6 +416,7 @@ Proof.
                     grow lit (s2 :: rest2) cont cpc (N.succ next) vo value = ROk g /\
                     d' = put_obj o (null_put cur s (fst (fst g))) d /\ next' = snd g).
         { unfold rbind in H.
+          destruct (negb (forallb straight_buildable (s2 :: rest2))); [discriminate|].
           destruct cur as [i x|i kvs|i els|i els]; try discriminate;
             (destruct (build_next lit (s2 :: rest2) value next vo) as [cont|e] eqn:Eb; [|discriminate]);
             (destruct (grow lit (s2 :: rest2) cont cpc (N.succ next) vo value) as [g|e] eqn:Eg; [|discriminate]);
@@ -434,6 +435,7 @@ Proof.
         -- rewrite Hce, Hcc'. apply (fresh_in_app next (N.succ next) n0 [next] extra); auto; try lia.
            split; [constructor; [intros []|constructor]|]. intros y [<-|[]]. lia.
     + rewrite walk_unfold, Ef in H. unfold rbind in H.
+      destruct (negb (forallb straight_buildable rest)); [discriminate|].
       destruct (grow lit (s :: rest) cur pc next vo value) as [[[g0 pc0] n0]|e] eqn:Eg; [|discriminate].
       destruct (coid cur) as [o|] eqn:Ec; [|discriminate]. simpl in H. inversion H; subst.
       destruct (grow_inv _ _ _ _ _ _ _ _ _ _ Eg Hlc (found_none_kmiss _ _ _ Ef)) as [Hle [Hgl [extra [Hce Hfr]]]].
